@@ -272,7 +272,7 @@ def _integrate_over(expr: ast.AST, generators: Sequence[ast.comprehension]) -> a
                     raise ValueError("Cannot tell the elements of a set of unknown values apart")
                 values = set(values)
 
-            sym_expr = sum(sym_expr.subs(integrand, value) for value in values)
+            sym_expr = sympy.Add(*(sym_expr.subs(integrand, value) for value in values))
 
         else:
             raise NotImplementedError(f"Cannot parse iterator: {comprehension.iter}")
